@@ -34,6 +34,10 @@ def findW (ws : List Watcher) (id : Nat) : Option Watcher := ws.find? (fun w => 
 /-- a watcher with the given callback identity (registrations sharing a callback are identical otherwise) -/
 def findCb (ws : List Watcher) (cb : Nat) : Option Watcher := ws.find? (fun w => w.cb = cb)
 
+/-- `setSlot<k>` → k -/
+def slotOf (kind : String) : Option Nat :=
+  if kind.startsWith "setSlot" then (kind.drop 7).toNat? else none
+
 def Item.isCall : Item → Bool | .call .. => true | _ => false
 
 /-- number of callback invocations anywhere below -/
@@ -77,10 +81,16 @@ def records (c : Cfg) : Nat → Bool → List Item → List Rec
     match it with
     | .stmt "key" p old new _ tr regs _ _ =>
       if blocked || !c.valid p new then records c f true rest
-      else { ev := ⟨p, old, new⟩, tr := tr, regs := regs } :: records c f false rest
+      else { ev := { name := p, old := old, new := new }, tr := tr, regs := regs } :: records c f false rest
     | .stmt "set" p old new _ tr regs _ .ok =>
-      { ev := ⟨p, old, new⟩, tr := tr, regs := regs } :: records c f false rest
+      { ev := { name := p, old := old, new := new }, tr := tr, regs := regs } :: records c f false rest
     | .stmt "set" .. => records c f false rest
+    | .stmt "setSlot1" p old new _ tr regs _ .ok =>
+      { ev := { name := p, old := old, new := new, what := 1 }, tr := tr, regs := regs } :: records c f false rest
+    | .stmt "setSlot2" p old new _ tr regs _ .ok =>
+      { ev := { name := p, old := old, new := new, what := 2 }, tr := tr, regs := regs } :: records c f false rest
+    | .stmt "setSlot1" .. => records c f false rest
+    | .stmt "setSlot2" .. => records c f false rest
     | .stmt "discard" .. => records c f false rest
     | .stmt "trigger" _ _ _ _ _ _ _ (.raised .key) => records c f false rest   -- unknown name: nothing applied
     | .stmt _ _ _ _ _ _ _ ch _ => records c f false ch ++ records c f false rest
@@ -101,7 +111,7 @@ def hasKind : Nat → String → List Item → Bool
 
 /-- did the assignment raise an event for (a registration of) this watcher's callback -/
 def qualifies (ws : List Watcher) (r : Rec) (w : Watcher) : Bool :=
-  (r.regs.filterMap (findW ws)).any (fun x => x.cb = w.cb) && passes r.tr w r.ev
+  r.ev.what == w.what && (r.regs.filterMap (findW ws)).any (fun x => x.cb = w.cb) && passes r.tr w r.ev
 
 /-- C04: the first flush round after a batch whose body produced `recs` -/
 def checkFlushRound (ws : List Watcher) (recs : List Rec) (calls : List (Nat × List TEv × List Int)) :
@@ -135,7 +145,7 @@ def checkFlushRound (ws : List Watcher) (recs : List Rec) (calls : List (Nat × 
           else evs.findSome? fun e =>
             -- the most recent assignment of that parameter that raised an event for somebody (an
             -- assignment inside `discard_events`, or a same-value one nobody listens to, raises none)
-            match (recs.filter (fun r => r.ev.name = e.name &&
+            match (recs.filter (fun r => r.ev.name = e.name && r.ev.what == e.what &&
                     (r.regs.filterMap (findW ws)).any (qualifies ws r))).getLast? with
             | some r => if e.new != r.ev.new then some s!"flush: event for {e.name} does not carry the final value" else none
             | none => some "flush: event without assignment"
@@ -157,16 +167,18 @@ def checkNodes (prop : String) (c : Cfg) (ws : List Watcher) (top : Bool) : Nat 
       | .stmt kind p old new b tr regs ch res =>
         if b && countCalls 100000 ch != 0 then
           some s!"a watcher ran while a batch was open (statement {kind})"
-        else if kind == "set" && !b && res == .ok then
-          let ev : Ev := ⟨p, old, new⟩
-          let exp := expectedDirect ws regs tr ev
+        else if (kind == "set" || (slotOf kind).isSome) && !b && res == .ok then
+          let ev : Ev := { name := p, old := old, new := new, what := (slotOf kind).getD 0 }
+          -- value watchers: ascending precedence then registration; attribute watchers: registration order
+          let exp := if kind == "set" then expectedDirect ws regs tr ev
+                     else (regs.filterMap (findW ws)).filter (fun w => passes tr w ev)
           let got := directCalls ch false
           if got.map (·.1) != exp.map (·.cb) then
-            some s!"set p{p} {old}->{new}: watchers invoked {got.map (·.1)}, expected exactly once each, in order, {exp.map (·.cb)}"
+            some s!"{kind} p{p} {old}->{new}: watchers invoked {got.map (·.1)}, expected exactly once each, in order, {exp.map (·.cb)}"
           else if (got.zip exp).any (fun (g, w) => g.2.1 != [typed tr w ev]) then
-            some s!"set p{p} {old}->{new}: event payload differs from the true old/new/type"
+            some s!"{kind} p{p} {old}->{new}: event payload differs from the true old/new/type"
           else match got.head? with
-            | some (_, _, snap) => if snap.getD p 0 != new then some s!"set p{p}: first watcher ran before the object showed the new value" else none
+            | some (_, _, snap) => if kind == "set" && snap.getD p 0 != new then some s!"set p{p}: first watcher ran before the object showed the new value" else none
             | none => none
         else if prop != "C03" && top && (kind == "batch" || kind == "update" || kind == "trigger") && !b
                 && (res == .ok || (kind == "update" && res == .raised .value))
